@@ -91,18 +91,36 @@ def thread_rule(ctx):
 _SEQ_WRAPPERS = {"list", "tuple", "iter", "nn.ModuleList", "torch.nn.ModuleList"}
 
 
-def seq_nf(e):
-    """Normal form of a sequence expression: (base text, reversed?, element map) with element
+def _gen_method_as_seq(fnode):
+    """a method whose body is `for t in S: yield f(t)` / `yield from S` / `return S` read as the
+    sequence expression it stands for, else None"""
+    body = [st for st in fnode.body if not (isinstance(st, ast.Expr) and isinstance(st.value, ast.Constant))]
+    if len(body) != 1:
+        return None
+    st = body[0]
+    if isinstance(st, ast.Return) and st.value is not None:
+        return st.value
+    if isinstance(st, ast.Expr) and isinstance(st.value, ast.YieldFrom):
+        return st.value.value
+    if isinstance(st, ast.For) and not st.orelse and len(st.body) == 1 and isinstance(st.body[0], ast.Expr) and isinstance(st.body[0].value, ast.Yield) and st.body[0].value.value is not None:
+        g = ast.GeneratorExp(elt=st.body[0].value.value, generators=[ast.comprehension(target=st.target, iter=st.iter, ifs=[], is_async=0)])
+        return ast.copy_location(g, st)
+    return None
+
+
+def seq_nf(e, methods=None):
+    """`methods`: name -> FunctionDef of the class, to read through `self._helper()` calls.
+    Normal form of a sequence expression: (base text, reversed?, element map) with element
     map in {"id", "inverse", "forward"}; None when the expression is not one of the
     order-deciding forms (wrappers list/tuple/iter/ModuleList, [*x], reversed(x), x[::-1],
     and one-generator comprehensions mapping t -> t | t.inverse | t.forward | InverseTransform(t))."""
     if isinstance(e, (ast.Name, ast.Attribute)):
         return (norm_text(e), False, "id")
     if isinstance(e, (ast.List, ast.Tuple)) and len(e.elts) == 1 and isinstance(e.elts[0], ast.Starred):
-        return seq_nf(e.elts[0].value)
+        return seq_nf(e.elts[0].value, methods)
     if isinstance(e, ast.Subscript) and isinstance(e.slice, ast.Slice):
         sl = e.slice
-        inner = seq_nf(e.value)
+        inner = seq_nf(e.value, methods)
         if inner is None or sl.lower is not None or sl.upper is not None:
             return None
         if sl.step is None or const_number(sl.step) == 1:
@@ -110,9 +128,14 @@ def seq_nf(e):
         if const_number(sl.step) == -1:
             return (inner[0], not inner[1], inner[2])
         return None
+    if isinstance(e, ast.Call) and not e.args and not e.keywords and methods and isinstance(e.func, ast.Attribute) and isinstance(e.func.value, ast.Name) and e.func.value.id == "self" and e.func.attr in methods:
+        inner_e = _gen_method_as_seq(methods[e.func.attr])
+        if inner_e is None:
+            return None
+        return seq_nf(inner_e, {k: v for k, v in methods.items() if k != e.func.attr})
     if isinstance(e, ast.Call) and len(e.args) == 1 and not e.keywords:
         f = norm_text(e.func)
-        inner = seq_nf(e.args[0])
+        inner = seq_nf(e.args[0], methods)
         if inner is None:
             return None
         if f in _SEQ_WRAPPERS:
@@ -124,7 +147,7 @@ def seq_nf(e):
         g = e.generators[0]
         if g.ifs or g.is_async or not isinstance(g.target, ast.Name):
             return None
-        inner = seq_nf(g.iter)
+        inner = seq_nf(g.iter, methods)
         if inner is None:
             return None
         t = g.target.id
@@ -199,6 +222,7 @@ def order_rule(ctx):
     p = ctx.p
     cls = p.find_class("CompositeTransform", "nflows.transforms.base")
     res = RuleResult("CMP-ORDER", "forward cascades the stored list in order; inverse cascades the parts' inverses over the reversed list; wherever a composite's parts are inverted element-wise the list is reversed")
+    n_inv_ok = 0
     for direction in ("forward", "inverse"):
         fi = cls.methods.get(direction)
         if fi is None:
@@ -216,7 +240,7 @@ def order_rule(ctx):
             if norm_text(a0) != "inputs" or norm_text(cx) != "context":
                 res.fail(Finding("CMP-ORDER", fi.module, fi.qualname, path.ret_node, "%s must cascade the inputs with the context" % direction))
                 continue
-            nf = seq_nf(fs)
+            nf = seq_nf(fs, {nm: m.node for nm, m in cls.methods.items()})
             # a sequence kept in an attribute: read through the constructor's value, and note
             # whether what is stored can be iterated more than once
             if nf is not None and nf[0].startswith("self.") and nf[0] != "self._transforms":
@@ -241,6 +265,7 @@ def order_rule(ctx):
                     res.fail(Finding("CMP-ORDER", fi.module, fi.qualname, path.ret_node, "forward must apply the transforms' forward direction in the order given (found `%s`)" % norm_text(fs)[:60]))
             else:
                 if rev and m == "inverse":
+                    n_inv_ok += 1
                     res.ok("inverse cascades t.inverse over the reversed list")
                 elif m == "inverse":
                     res.fail(Finding("CMP-ORDER", fi.module, fi.qualname, path.ret_node, "inverse applies the parts' inverses in the forward order; it must use the reversed list"))
@@ -263,9 +288,16 @@ def order_rule(ctx):
     # element-wise inversion of any composite's part list must go with a reversal
     n_inv = 0
     for mi in [_base(p)]:
+        cands = []
         for node in ast.walk(mi.tree):
-            if not isinstance(node, (ast.GeneratorExp, ast.ListComp)):
-                continue
+            if isinstance(node, (ast.GeneratorExp, ast.ListComp)):
+                cands.append((node, node))
+            elif isinstance(node, ast.FunctionDef):
+                g = _gen_method_as_seq(node)
+                if isinstance(g, ast.GeneratorExp) and isinstance(node.body[-1], ast.For):
+                    g._parent = None
+                    cands.append((g, node.body[-1]))
+        for node, where_node in cands:
             own = seq_nf(node)
             if own is None or own[2] != "inverse" or not own[0].endswith("._transforms"):
                 continue
@@ -274,12 +306,13 @@ def order_rule(ctx):
             if nf is None:
                 nf = own
             n_inv += 1
-            where = _qual_of(node)
+            where = _qual_of(where_node)
+            node = where_node
             if nf[1]:
                 res.ok("%s: inverses of %s enumerated over the reversed list" % (where, nf[0]))
             else:
                 res.fail(Finding("CMP-ORDER", mi, where, node, "the parts' inverses of `%s` are enumerated in forward order: the inverse of a cascade is the reversed list of inverses" % nf[0]))
-    if n_inv < 1:
+    if n_inv + n_inv_ok < 1:
         raise AnalysisIncomplete("CMP-ORDER: no element-wise inversion of a part list found (expected CompositeTransform.inverse)")
     return res
 
